@@ -4,12 +4,15 @@ import (
 	"encoding/json"
 	"flag"
 	"fmt"
+	"github.com/rbell/toolchest/workqueue"
 	"math/rand"
 	"os"
 	"os/exec"
 	"regexp"
 	"runtime"
+	"strconv"
 	"strings"
+	"sync/atomic"
 	"time"
 
 	"verifharness/internal/cw"
@@ -116,8 +119,8 @@ func (g *world) emit(s *sess, gen string) {
 func classify(s *sess, prop string) ([]string, bool) {
 	tags := map[string]bool{}
 	enqStep := map[int]int{}
-	waited := 0        // items that started in a later step than their own Enqueue (they waited somewhere)
-	contested := 0     // ... while at least one other accepted item was still unstarted
+	waited := 0    // items that started in a later step than their own Enqueue (they waited somewhere)
+	contested := 0 // ... while at least one other accepted item was still unstarted
 	started := map[int]bool{}
 	nEnq := 0
 	for k, st := range s.steps {
@@ -218,11 +221,11 @@ func (g *world) runFixed(sc script) {
 // ---------- adaptive random generator ----------
 
 type profile struct {
-	Ws, Ls                                                     []int
-	steps, maxItems, prioRange                                 int
-	wEnq, wFin, wAdj, wDeq, wSetp, wEsub, wErecv, wResize      int
-	pAdjItem, pErr                                             float64
-	burst                                                      bool // fill the queue first
+	Ws, Ls                                                []int
+	steps, maxItems, prioRange                            int
+	wEnq, wFin, wAdj, wDeq, wSetp, wEsub, wErecv, wResize int
+	pAdjItem, pErr                                        float64
+	burst                                                 bool // fill the queue first
 }
 
 func pick(r *rand.Rand, l []int) int { return l[r.Intn(len(l))] }
@@ -327,7 +330,9 @@ func profileFor(prop, tier string) profile {
 	case "C04":
 		p.wAdj, p.wDeq, p.wSetp = 1, 1, 0
 	case "C09":
-		p.wResize, p.wAdj, p.wDeq, p.wSetp, p.wEsub, p.wErecv, p.pErr = 4, 0, 0, 0, 0, 0, 0
+		// work functions that return errors, without subscribers (variant 0) and with subscribers (variant 1): a worker
+		// must hand its token back after a failing item too
+		p.wResize, p.wAdj, p.wDeq, p.wSetp, p.wEsub, p.wErecv, p.pErr = 3, 0, 0, 0, 0, 0, 0.4
 		p.Ws = []int{1, 2, 3, 4}
 	case "C14":
 		p.wEsub, p.wErecv, p.pErr, p.wAdj, p.wDeq, p.wSetp, p.wResize = 3, 8, 0.6, 0, 0, 0, 0
@@ -360,12 +365,14 @@ func (g *world) runWord(W, L int, word string) int {
 			}
 			s.do(Stim{Op: "enq", A: pr, B: n, Adj: c == 'c'})
 			n++
-		case 'f', 'g':
+		case 'f', 'g', 'e':
 			r := s.runningItems()
 			if len(r) == 0 {
 				ok = false
 			} else if c == 'f' {
 				s.do(Stim{Op: "fin", A: r[0], B: -1})
+			} else if c == 'e' {
+				s.do(Stim{Op: "fin", A: r[0], B: r[0]}) // the oldest running item returns an error (token = its index)
 			} else {
 				s.do(Stim{Op: "fin", A: r[len(r)-1], B: -1})
 			}
@@ -417,12 +424,13 @@ func words(alpha string, n int, f func(string)) {
 
 // ---------- corpus: the refutation witnesses of Findings/WQ.v and minimised past failures ----------
 
-func enq(p, name int) Stim            { return Stim{Op: "enq", A: p, B: name} }
-func enqA(p, name int) Stim           { return Stim{Op: "enq", A: p, B: name, Adj: true} }
-func fin(i int) Stim                  { return Stim{Op: "fin", A: i, B: -1} }
-func adjv(i, v int) Stim              { return Stim{Op: "adj", A: i, B: v} }
-func deq(i int) Stim                  { return Stim{Op: "deq", A: i} }
-func setp(i, p int) Stim              { return Stim{Op: "setp", A: i, B: p} }
+func enq(p, name int) Stim  { return Stim{Op: "enq", A: p, B: name} }
+func enqA(p, name int) Stim { return Stim{Op: "enq", A: p, B: name, Adj: true} }
+func fin(i int) Stim        { return Stim{Op: "fin", A: i, B: -1} }
+func finE(i, e int) Stim    { return Stim{Op: "fin", A: i, B: e} }
+func adjv(i, v int) Stim    { return Stim{Op: "adj", A: i, B: v} }
+func deq(i int) Stim        { return Stim{Op: "deq", A: i} }
+func setp(i, p int) Stim    { return Stim{Op: "setp", A: i, B: p} }
 
 func corpus() []script {
 	return []script{
@@ -440,6 +448,17 @@ func corpus() []script {
 		{1, 6, []Stim{enq(1, 0), enq(1, 1), enq(2, 2), enq(3, 3), enq(4, 4), setp(4, 0), fin(0), fin(1)}, "corpus-F6-setpriority"},
 		// F6: Dequeue / SetPriority of an executing item and of an unknown id
 		{2, 2, []Stim{enq(1, 0), enq(1, 1), enq(1, 2), deq(0), setp(1, 5), deq(7), setp(7, 1)}, "corpus-F6-executing-unknown"},
+		// a failing work function must give its worker's token back: 1 worker, two failing items, then two ordinary ones
+		{1, 3, []Stim{enq(1, 0), enq(1, 1), enq(1, 2), enq(1, 3), finE(0, 0), finE(1, 1)}, "corpus-failing-items-keep-tokens"},
+		// ... and a producer blocked on the full queue resumes when failing items complete (every item fails)
+		{1, 1, []Stim{enq(1, 0), enq(1, 1), enq(1, 2), enq(1, 3), enq(1, 4), finE(0, 0), finE(1, 1), finE(2, 2), finE(3, 3), finE(4, 4)}, "corpus-failing-items-resume-producer"},
+		// the same with an error subscriber that receives every error
+		{1, 1, []Stim{{Op: "esub"}, enq(1, 0), enq(1, 1), enq(1, 2), enq(1, 3), finE(0, 0), {Op: "erecv", A: 0}, finE(1, 1), {Op: "erecv", A: 0}, finE(2, 2), {Op: "erecv", A: 0}}, "corpus-failing-items-subscriber"},
+		// Dequeue / SetPriority after adjust functions changed value (the target's index moves when priorities are
+		// re-evaluated): heap [2(p2,adj) 3(p3) 4(p4,adj)], item 2 now says 9
+		{1, 6, []Stim{enq(1, 0), enq(1, 1), enqA(2, 2), enq(3, 3), enqA(4, 4), adjv(2, 9), deq(2), fin(0), fin(1)}, "corpus-dequeue-after-adjust-change"},
+		{1, 6, []Stim{enq(1, 0), enq(1, 1), enqA(2, 2), enq(3, 3), enqA(4, 4), adjv(2, 9), adjv(4, 0), deq(3), fin(0), fin(1)}, "corpus-dequeue-other-after-adjust-change"},
+		{1, 6, []Stim{enq(1, 0), enq(1, 1), enqA(2, 2), enq(3, 3), enq(5, 4), adjv(2, 9), setp(4, 0), fin(0), fin(1)}, "corpus-setpriority-after-adjust-change"},
 	}
 }
 
@@ -490,15 +509,15 @@ func runChild(in, out string) {
 }
 
 type crash struct {
-	W, L     int
-	Stimuli  []Stim `json:"stimuli"`
-	Script   string `json:"script"`
-	Done     int    `json:"steps_completed"`
-	Kind     string `json:"kind"` // panic | hang | exit
-	Panic    string `json:"panic"`
-	Frames   []string `json:"frames"`
-	Sig      string `json:"signature"`
-	Stderr   string `json:"stderr_tail"`
+	W, L    int
+	Stimuli []Stim   `json:"stimuli"`
+	Script  string   `json:"script"`
+	Done    int      `json:"steps_completed"`
+	Kind    string   `json:"kind"` // panic | hang | exit
+	Panic   string   `json:"panic"`
+	Frames  []string `json:"frames"`
+	Sig     string   `json:"signature"`
+	Stderr  string   `json:"stderr_tail"`
 }
 
 var frameRe = regexp.MustCompile(`workqueue\.\(\*Queue\)\.(\w+)`)
@@ -689,9 +708,205 @@ func (g *world) runC19(tier, dir string) (map[string]any, []crash) {
 			}
 		}
 	}
+	ntr, bfails, bcrashes := g.runBursts(self, dir, tier)
+	crashes = append(crashes, bcrashes...)
+	g.w.Extra["burst_failures"] = bfails
+	g.w.Extra["burst_trials"] = ntr
 	scope := map[string]any{"children": nChildren, "crashed_children": len(crashes),
-		"workloads": fmt.Sprintf("%d workloads (W,L,n items, optional error + subscriber) x {Stop,Break} injected at every position, followed by the remaining Enqueue calls + 1 and an adaptive drain", len(wls))}
+		"workloads": fmt.Sprintf("%d workloads (W,L,n items, optional error + subscriber) x {Stop,Break} injected at every position, followed by the remaining Enqueue calls + 1 and an adaptive drain", len(wls)),
+		"bursts":    fmt.Sprintf("%d trials: n in 1..6 Enqueue calls of never-returning work from one goroutine, immediately Stop (no quiescence in between), W in n..n+2, L in {1,2,n,2n}; then one Enqueue after Stop", ntr)}
 	return scope, crashes
+}
+
+// ---------- C19: a burst of Enqueue calls immediately followed by Stop (no quiescence in between) ----------
+// Regime in which the unchanged code is deterministic and outside known finding K5: the work functions never return,
+// there are at least as many workers as items, the producer is a single goroutine whose calls have all returned before
+// Stop.  Each returned Enqueue has handed its item to the dispatcher, which passes it straight to the worker channel
+// (nothing is waiting, the channel has room) before it looks at the cancellation; workers drain a closed channel.  So
+// every item accepted before Stop starts exactly once; nothing ever finishes, so nothing is sent on a closed channel.
+
+type burstCfg struct {
+	W, L, N int
+}
+type burstRes struct {
+	Cfg          burstCfg `json:"cfg"`
+	Trial        int      `json:"trial"`
+	Starts       []int64  `json:"starts"`        // how often each item's work function was called
+	EnqueueHang  bool     `json:"enqueue_hang"`  // a call before Stop did not return within the bound
+	LateReturned bool     `json:"late_returned"` // Enqueue after Stop returned
+	LateRan      bool     `json:"late_ran"`
+	Unstable     bool     `json:"unstable"`
+}
+
+func runBurstChild(in, out string) {
+	var cfgs []burstCfg
+	b, err := os.ReadFile(in)
+	if err == nil {
+		err = json.Unmarshal(b, &cfgs)
+	}
+	if err != nil {
+		fmt.Fprintln(os.Stderr, "burst child:", err)
+		os.Exit(2)
+	}
+	f, _ := os.OpenFile(out, os.O_CREATE|os.O_WRONLY|os.O_TRUNC, 0o644)
+	never := make(chan struct{})
+	for trial, c := range cfgs {
+		r := burstRes{Cfg: c, Trial: trial}
+		q := workqueue.NewQueue(workqueue.WithWorkers(c.W), workqueue.WithQueueLength(c.L))
+		starts := make([]atomic.Int64, c.N)
+		done := make(chan struct{})
+		go func() {
+			for i := 0; i < c.N; i++ {
+				i := i
+				q.Enqueue(func() error { starts[i].Add(1); <-never; return nil }, workqueue.WithName(strconv.Itoa(i)))
+			}
+			q.Stop() // immediately after the last accepted call, same goroutine
+			close(done)
+		}()
+		select {
+		case <-done:
+		case <-time.After(20 * time.Second): // generous: the burst takes microseconds
+			r.EnqueueHang = true
+		}
+		if !quiesce() {
+			r.Unstable = true
+		}
+		for i := range starts {
+			r.Starts = append(r.Starts, starts[i].Load())
+		}
+		if !r.EnqueueHang {
+			var late atomic.Int64
+			var ret atomic.Bool
+			go func() {
+				q.Enqueue(func() error { late.Add(1); <-never; return nil })
+				ret.Store(true)
+			}()
+			if !quiesce() {
+				r.Unstable = true
+			}
+			r.LateReturned = ret.Load()
+			r.LateRan = late.Load() > 0
+		}
+		j, _ := json.Marshal(r)
+		f.Write(append(j, '\n'))
+		f.Sync()
+	}
+	f.Close()
+	os.Exit(0)
+}
+
+type burstFailure struct {
+	Clause string   `json:"clause"`
+	Detail string   `json:"detail"`
+	Res    burstRes `json:"trial"`
+	Sig    string   `json:"signature"`
+}
+
+// runBursts spawns children that each run a batch of burst trials; returns (#trials, failures, crashes).
+func (g *world) runBursts(self, dir string, tier string) (int, []burstFailure, []crash) {
+	fails := []burstFailure{}
+	crashes := []crash{}
+	batches, per := 8, 25
+	if tier == "thorough" {
+		batches = 40
+	}
+	trials := 0
+	for bi := 0; bi < batches; bi++ {
+		cfgs := []burstCfg{}
+		for k := 0; k < per; k++ {
+			n := 1 + g.rng.Intn(6)
+			Ls := []int{1, 2, n, 2 * n}
+			cfgs = append(cfgs, burstCfg{W: n + g.rng.Intn(3), L: Ls[g.rng.Intn(len(Ls))], N: n})
+		}
+		in := fmt.Sprintf("%s/burst-%d.json", dir, bi)
+		out := fmt.Sprintf("%s/burst-%d.jsonl", dir, bi)
+		b, _ := json.Marshal(cfgs)
+		os.WriteFile(in, b, 0o644)
+		cmd := exec.Command(self, "-burst", in, "-out", out)
+		var errb strings.Builder
+		cmd.Stderr = &errb
+		done := make(chan error, 1)
+		cmd.Start()
+		go func() { done <- cmd.Wait() }()
+		var werr error
+		hang := false
+		select {
+		case werr = <-done:
+		case <-time.After(600 * time.Second):
+			cmd.Process.Kill()
+			<-done
+			hang = true
+		}
+		n := 0
+		if ob, err := os.ReadFile(out); err == nil {
+			for _, line := range strings.Split(string(ob), "\n") {
+				var r burstRes
+				if line == "" || json.Unmarshal([]byte(line), &r) != nil {
+					continue
+				}
+				n++
+				add := func(clause, detail string) {
+					fails = append(fails, burstFailure{clause, detail, r, "burst:" + clause})
+				}
+				if r.Unstable {
+					continue // the machine did not settle within the bound: the trial says nothing
+				}
+				if r.EnqueueHang {
+					add("enqueue-hang", "an Enqueue call made before Stop did not return within 20 s")
+					continue
+				}
+				for i, c := range r.Starts {
+					if c == 0 {
+						add("accepted-work-lost", fmt.Sprintf("item %d: Enqueue returned before Stop, its work function was never called (W=%d idle workers, L=%d, %d items)", i, r.Cfg.W, r.Cfg.L, r.Cfg.N))
+						break
+					}
+					if c > 1 {
+						add("accepted-work-twice", fmt.Sprintf("item %d ran %d times", i, c))
+						break
+					}
+				}
+				if !r.LateReturned {
+					add("late-enqueue-hang", "Enqueue after Stop did not return")
+				}
+				if r.LateRan {
+					add("late-work-ran", "work submitted after Stop was run")
+				}
+			}
+		}
+		trials += n
+		os.Remove(in)
+		os.Remove(out)
+		if werr != nil || hang {
+			se := errb.String()
+			c := crash{Script: fmt.Sprintf("burst batch %d (%d trials completed)", bi, n), Done: n, Kind: "panic", Stderr: se}
+			if len(se) > 1500 {
+				c.Stderr = se[:1500]
+			}
+			if hang {
+				c.Kind, c.Sig = "hang", "crash:hang"
+			} else {
+				c.Panic = panicRe.FindString(se)
+				c.Sig = "crash-burst:" + c.Panic
+			}
+			crashes = append(crashes, c)
+		}
+		if len(fails) >= 20 {
+			break
+		}
+	}
+	return trials, fails, crashes
+}
+
+// Sessions whose work never completes cannot be shut down safely and leave their goroutines blocked; that only
+// happens when the queue under test loses work (each such session is itself a failing case).  Beyond a bound the stack
+// snapshots of the quiescence detector become slow, so script generation stops: the evidence is already there.
+var leakTruncated bool
+
+func tooManyLeaks() bool {
+	if runtime.NumGoroutine() > 1500 {
+		leakTruncated = true
+	}
+	return leakTruncated
 }
 
 // ---------- main ----------
@@ -706,9 +921,14 @@ func main() {
 	times := flag.Int("times", 3, "")
 	nrandom := flag.Int("random", -1, "number of random scripts (default by tier)")
 	child := flag.String("child", "", "run the script in this file (child-process mode of -prop C19)")
+	burst := flag.String("burst", "", "run the burst trials in this file (child-process mode of -prop C19)")
 	flag.Parse()
 	if *child != "" {
 		runChild(*child, *out)
+		return
+	}
+	if *burst != "" {
+		runBurstChild(*burst, *out)
 		return
 	}
 	if *module == "" {
@@ -765,7 +985,9 @@ func main() {
 			alpha, n = "abcfu", 4
 		case "C16":
 			alpha, n = "abfdp", 5
-		case "C09", "C04":
+		case "C09":
+			alpha, n = "abfe", 5
+		case "C04":
 			alpha, n = "abfg", 5
 		}
 		if *tier == "thorough" {
@@ -782,6 +1004,9 @@ func main() {
 							if dead[w[:j]] {
 								return
 							}
+						}
+						if tooManyLeaks() {
+							return
 						}
 						if good := g.runWord(W, L, w); good == len(w) {
 							cnt++
@@ -802,8 +1027,23 @@ func main() {
 			}
 		}
 		p := profileFor(*prop, *tier)
-		for i := 0; i < nr; i++ {
-			g.runRandom(p, "random")
+		for i := 0; i < nr && !tooManyLeaks(); i++ {
+			q := p
+			gen := "random"
+			if *prop == "C09" && i%3 == 1 {
+				q.wEsub, q.wErecv = 1, 6
+				gen = "random-subscribers"
+			}
+			if *prop == "C09" && i%3 == 2 {
+				q.pErr = 0
+				gen = "random-no-errors"
+			}
+			if *prop == "C16" && i%2 == 1 {
+				// adjust functions that change value between Enqueue and the Dequeue/SetPriority call
+				q.wAdj, q.pAdjItem = 8, 0.6
+				gen = "random-adjust"
+			}
+			g.runRandom(q, gen)
 		}
 		scope["random"] = fmt.Sprintf("%d adaptive random scripts of <= %d stimuli (+ drain), W in %v, L in %v, <= %d items, priorities 0..%d", nr, p.steps, p.Ws, p.Ls, p.maxItems, p.prioRange-1)
 	}
@@ -814,6 +1054,7 @@ func main() {
 	g.w.Extra["quiescence_waits"] = quiesceCalls
 	g.w.Extra["stack_snapshots"] = quiesceSnaps
 	g.w.Extra["goroutines_at_end"] = runtime.NumGoroutine()
+	g.w.Extra["generation_truncated_by_leaked_goroutines"] = leakTruncated
 	g.w.Extra["harness_wall_s"] = time.Since(t0).Seconds()
 	if err := g.w.Flush(); err != nil {
 		fmt.Fprintln(os.Stderr, err)
